@@ -53,7 +53,7 @@ Definition interp (f : nat) (args : list val) (kwargs : list (nat * val)) : opti
   | 3%nat => Some (VCont CTuple (2000 + f) all)
   | 4%nat => None
   | 5%nat => match args with _ :: b :: _ => Some b | a :: _ => Some a | [] => Some (Atom 0 (Z.of_nat f)) end
-  | 6%nat => if Z.eqb ((dgs f args kwargs) mod 3) 0 then None else Some (Atom 0 (dgs f args kwargs))
+  | 6%nat => if Z.eqb ((dgs f args kwargs) mod 7) 0 then None else Some (Atom 0 (dgs f args kwargs))
   | _ => Some (Atom 0 (dgs f args kwargs))
   end.
 
